@@ -141,17 +141,18 @@ class Dom:
             def gp(*a, **k):
                 if a and isinstance(a[0], (int, float)) and a[0] == 0:
                     raise ZeroDivisionError("raised by the user function")
-                return ("g", a, tuple(sorted(k.items())))
+                return ("g", a, tuple(k.items()))          # keyword order as received
             return gp
         f = {}
 
         def g(*a, **k):
-            key = (len(a), tuple(sorted(k)))
+            # keyword arguments are seen in the order received (PEP 468): another order is another function
+            key = (len(a), tuple(k))
             sort = "int" if self.dom == "int" else "real"
             if key not in f:
-                nm = f"{name}_{len(a)}_{'_'.join(sorted(k))}"
+                nm = f"{name}_{len(a)}_{'_'.join(k)}"
                 f[key] = (self.ex.func(nm, len(a) + len(k), sort), self.ex.func(nm + "_raises", len(a) + len(k), sort))
-            args = list(a) + [k[n] for n in sorted(k)]
+            args = list(a) + [k[n] for n in k]
             # a user function may raise: "raises ZeroDivisionError" is an
             # uninterpreted predicate of the arguments (deterministic)
             if f[key][1](*args) == 1:
@@ -349,7 +350,7 @@ def inner_tree(kind, leaf):
     if kind == "abs":
         return ("un", "abs", ("leaf", leaf))
     if kind == "call1":
-        return ("call", [("leaf", leaf)], [("kw", ("leaf", "c"))])
+        return ("call", [("leaf", leaf)], [("kw", ("leaf", "c")), ("ab", ("leaf", "k"))])
     if kind == "item_computed":
         return ("item_computed",)
     if kind == "attr":
@@ -383,7 +384,7 @@ def make_tree(case):
     if k == "meth":
         return ("meth", case["op"], i1, i2 if case["cfg"] == "rr" else ("lit", "q"))
     if k == "call":
-        return ("call", [i1, i2] if case["cfg"] == "rr" else [i1, ("lit", "q")], [("kw", ("leaf", "c"))])
+        return ("call", [i1, i2] if case["cfg"] == "rr" else [i1, ("lit", "q")], [("kw", ("leaf", "c")), ("ab", ("leaf", "k"))])
     if k == "spine":
         t = ("leaf", "a")
         for op in case["ops"]:
